@@ -76,6 +76,7 @@ struct FwdMonitor : Observer {
     entered_block = b;
     if (!ref_vars.empty()) check_references_pending = true;
     std::string why;
+    G.stable_next = true;
     GItem g = G.member(inv(pre, b, true), s, vars, level_for(visits_pre, b), why);
     if (g != G_OK) {
       const Func &fn = p.funcs[0];
@@ -159,7 +160,9 @@ struct FwdMonitor : Observer {
       } else if (st.kind == S_ARR_LOAD || st.kind == S_REF_LOAD || st.kind == S_REF_TO_INT) {
         loads_checked++;
         std::vector<int> one{st.lhs};
+        G.stable_next = true;
         g = G.member(ss[j], ex->block_trace[j], one, 2, why);
+        G.stable_next = true;
         if (g == G_OK) g = G.member(ss[j], ex->block_trace[j], vars, 1, why);
       }
       if (g != G_OK) {
@@ -185,6 +188,7 @@ struct FwdMonitor : Observer {
     if (stop) return;
     prev_block = b;
     std::string why;
+    G.stable_next = true;
     GItem g = G.member(inv(post, b, false), s, vars, level_for(visits_post, b), why);
     if (g != G_OK) {
       // localise: replay the block transformer statement by statement from the reported pre-invariant
@@ -248,6 +252,7 @@ struct FwdMonitor : Observer {
     if (i > 0 && (size_t)(i - 1) < ss.size() && ex && ex->block_trace.size() >= (size_t)i) {
       for (int j = 0; j < i; ++j) {
         std::string why;
+        G.stable_next = true;
         GItem g = G.member(ss[j], ex->block_trace[j], vars, 1, why);
         if (g != G_OK) {
           ctx.violation("C01", std::string(dom.name) + "|post|" + stmt_tag(fn.blocks[b].stmts[j]) + "|" + GITEM_NAMES[g], kase,
@@ -327,6 +332,7 @@ void run_fwd_case(Ctx &ctx, int64_t kase, Rng &r, const DomInfo &d) {
       ref_vars.push_back(rv);
       reg_of[rv] = reg_vars[r.below(2)]; // the last region (if a third exists) is only the target of region_copy
     }
+    bool sparse_refs = r.chance(1, 3);
     int next_site = 0;
     auto val_operand = [&](Stmt &s) {
       if (r.coin() || i32.empty()) {
@@ -353,6 +359,7 @@ void run_fwd_case(Ctx &ctx, int64_t kase, Rng &r, const DomInfo &d) {
       Stmt s;
       int other = same_region_ref(rv);
       int how = (int)r.below(6);
+      if (sparse_refs && r.chance(3, 4)) how = 0; // few allocations up front: regions with a single reference get strong updates
       if (how == 0) { // null
         s.kind = S_REF_ASSUME;
         s.op = 0;
@@ -398,6 +405,7 @@ void run_fwd_case(Ctx &ctx, int64_t kase, Rng &r, const DomInfo &d) {
         int rv = ref_vars[r.below(ref_vars.size())];
         Stmt s;
         int kind = (int)r.below(20);
+        if (sparse_refs && r.chance(1, 4)) kind = 14; // allocate inside branches and loops
         if (kind < 6) {
           s.kind = S_REF_STORE;
           s.lhs = rv;
@@ -456,6 +464,13 @@ void run_fwd_case(Ctx &ctx, int64_t kase, Rng &r, const DomInfo &d) {
         while (hi > lo && (st[hi - 1].kind == S_UNREACH || st[hi - 1].kind == S_ASSIGN)) hi--;
         size_t pos = lo + (hi > lo ? r.below(hi - lo + 1) : 0);
         st.insert(st.begin() + pos, s);
+        if (sparse_refs && (s.kind == S_REF_STORE || s.kind == S_REF_LOAD)) { // guard the dereference: most references are null
+          Stmt gd;
+          gd.kind = S_REF_ASSUME;
+          gd.op = 1;
+          gd.a = s.kind == S_REF_STORE ? s.lhs : s.a;
+          st.insert(st.begin() + pos, gd);
+        }
       }
     }
     auto &eb = f0.blocks[f0.entry].stmts;
